@@ -39,7 +39,7 @@ package builder
 //@ props C16
 
 //@ func data/builder.sizedStore
-//@ prop C11
+//@ prop C07 C08 C10 C11
 //@ at call data/builder.wrappedLinkSystem#1 assert wraps-the-callers-link-system: callee_ls == ls
 //@ at call (*github.com/ipld/go-ipld-prime/linking.LinkSystem).Store#1 assert stores-this-node-under-this-prototype: callee_lp == lp && callee_n == n
 //@ ensures size-is-the-stored-blocks-length: err == nil ==> result1 == blockLen(result0)
@@ -105,7 +105,7 @@ package builder
 //@ assigns stored(result0.link), storeFailed, exhausted(src)
 
 //@ func data/builder.BuildUnixFSFile
-//@ prop C07 C10
+//@ prop C01 C07 C10 C18
 //@ at return ghost builtSize(result0) = result1
 //@ ensures reports-the-size-it-returns: err == nil ==> builtSize(result0) == result1
 //@ at call github.com/ipfs/boxo/chunker.FromString#1 assert the-input-is-read-only-through-the-splitter: callee_r == old(r) && callee_chunker == old(chunker)
@@ -259,7 +259,7 @@ package builder
 // Behavioural subtyping (io.Writer): hinput(w) is the byte string handed to w.Write so far; the
 // byte counter forwards every write and is itself a writer in that sense.
 //@ func (*data/builder.byteCounter).Write
-//@ prop C01 C11
+//@ prop C01 C07 C11 C16
 //@ domain not-wrapping-itself: bc.w != bc
 //@ ensures every-write-is-forwarded-unchanged: hinput(bc.w) == ite(old(hinput(bc.w)) == "", str(p), cat(old(hinput(bc.w)), str(p)))
 //@ at return ghost hinput(bc) = ite(hinput(bc) == "", str(p), cat(hinput(bc), str(p)))
